@@ -90,8 +90,31 @@ def run_harnesses(repo_copy, workdir, harnesses, tier):
     for h in harnesses:
         groups.setdefault((h["package"], tuple(h.get("flags", []))), []).append(h)
     results = []
-    for (pkg, flags), hs in groups.items():
+    for (pkg, flags) in groups:
         inject(repo_copy, pkg)
+    # one cargo-kani process per (package, flags) group, groups in parallel (the build steps serialise on
+    # cargo's target-dir lock; the CBMC runs overlap)
+    import threading
+    lock = threading.Lock()
+    errors = []
+    def work(pkg, flags, hs):
+        try:
+            res = _run_group(repo_copy, pkg, flags, hs)
+            with lock:
+                results.extend(res)
+        except ToolError as e:
+            with lock:
+                errors.append(e)
+    th = [threading.Thread(target=work, args=(pkg, flags, hs)) for (pkg, flags), hs in groups.items()]
+    for t in th: t.start()
+    for t in th: t.join()
+    if errors:
+        raise errors[0]
+    return results
+
+def _run_group(repo_copy, pkg, flags, hs):
+    results = []
+    if True:
         cmd = ["cargo", "kani", "-p", pkg, "--output-format=terse", "-j", str(min(8, max(1, len(hs))))] + list(flags)
         for h in hs:
             cmd += ["--harness", h["harness"]]
@@ -109,8 +132,6 @@ def run_harnesses(repo_copy, workdir, harnesses, tier):
             st = "SUCCESSFUL" if r["status"] == "SUCCESSFUL" else "FAILED"
             fc = [l for l in r.get("failed_checks", "").splitlines() if l.startswith("Failed Checks")]
             if st == "FAILED" and fc and all("unwinding assertion" in l for l in fc) and not h.get("expect_fail"):
-                # the bound of the harness is too small for the (changed) code: inconclusive, never an alarm.
-                # retry once with a larger global bound
                 cmd2 = ["cargo", "kani", "-p", pkg, "--output-format=terse", "--harness", h["harness"], "--unwind", "30"] + list(flags)
                 out2, wall2, to2, rc2 = _run(cmd2, repo_copy, h.get("timeout", 300) + 120)
                 r2 = parse(out2).get(h["harness"], {})
@@ -123,6 +144,9 @@ def run_harnesses(repo_copy, workdir, harnesses, tier):
                     results.append((h, {"status": "INCONCLUSIVE(unwinding bound)" if not to2 else "TIMEOUT", "wall_s": wall + wall2,
                                         "failed_checks": r.get("failed_checks", ""), "stubs": r.get("stubs", []), "tail": ""}))
                     continue
+            elif st == "FAILED" and fc and not h.get("expect_fail"):
+                # genuine assertion failures count; unwinding failures listed next to them are ignored
+                pass
             ent = {"status": st, "wall_s": r.get("time", 0.0), "failed_checks": r.get("failed_checks", ""),
                    "stubs": r.get("stubs", []), "tail": ""}
             if st == "FAILED" and not h.get("expect_fail"):
